@@ -19,20 +19,30 @@ import json, sys, logging, warnings
 warnings.filterwarnings("ignore"); logging.disable(logging.CRITICAL)
 from pathlib import Path
 from experimaestro import experiment, RunMode
-from xvschema.dep import OldT, OldC, NewT, NewC
+import shutil
+from xvschema.dep import OldT, OldC, NewT, NewC, submit
 root = Path(sys.argv[1]); behs = json.load(open(sys.argv[2])); out = []
 for i, beh in enumerate(behs):
     wd = root / f"w{i}"
     jobs = {}
     with experiment(wd, "dep", run_mode=RunMode.GENERATE_ONLY, port=-1) as xp:
         for j in sorted(beh[0]["loc"]):
-            # job 1: deprecated task class; job 2: replacement task holding a deprecated configuration
-            t = OldT(n=int(j), c=NewC(v=int(j))) if j == "1" else NewT(n=int(j), c=OldC(v=int(j)))
-            t.submit()
+            t = submit(j, old=True)
             job = t.__xpm__.job
             (job.path / "data.txt").write_text(f"result {j}")
             job.donepath.touch()
             jobs[j] = {"old": str(job.path.relative_to(wd))}
+    # bystanders: job directories whose parameter file names a parameter the class no longer has (they cannot be loaded;
+    # the repair has to leave them alone and go on)
+    for j in list(jobs)[:2]:
+        src = wd / jobs[j]["old"]
+        for fake in ("0" * 64, "f" * 64):
+            dst = src.parent / fake
+            shutil.copytree(src, dst, symlinks=True)
+            pj = dst / "params.json"
+            d = json.loads(pj.read_text())
+            d["objects"][-1]["fields"]["removed_since"] = 1
+            pj.write_text(json.dumps(d))
     out.append(jobs)
 print("P1" + json.dumps(out))
 '''
@@ -43,7 +53,7 @@ warnings.filterwarnings("ignore"); logging.disable(logging.CRITICAL)
 from pathlib import Path
 from experimaestro import experiment, RunMode
 from experimaestro.tools.jobs import fix_deprecated
-from xvschema.dep import OldT, OldC, NewT, NewC
+from xvschema.dep import OldT, OldC, NewT, NewC, submit
 root = Path(sys.argv[1]); behs = json.load(open(sys.argv[2])); p1 = json.load(open(sys.argv[3])); relative = sys.argv[4] == "rel"
 results = []
 for i, (beh, jobs) in enumerate(zip(behs, p1)):
@@ -52,8 +62,7 @@ for i, (beh, jobs) in enumerate(zip(behs, p1)):
     # new locations
     with experiment(wd, "dep2", run_mode=RunMode.DRY_RUN, port=-1) as xp:
         for j in jobs:
-            t = NewT(n=int(j), c=NewC(v=int(j)))
-            t.submit()
+            t = submit(j, old=False)
             jobs[j]["new"] = str(t.__xpm__.job.path.relative_to(wd))
     for j, k in beh[0]["link"].items():
         new, old = wd / jobs[j]["new"], wd / jobs[j]["old"]
@@ -84,8 +93,7 @@ for i, (beh, jobs) in enumerate(zip(behs, p1)):
     found = {}
     with experiment(wd, "dep3", run_mode=RunMode.DRY_RUN, port=-1) as xp:
         for j in jobs:
-            t = NewT(n=int(j), c=NewC(v=int(j)))
-            t.submit()
+            t = submit(j, old=False)
             found[j] = t.__xpm__.job.donepath.is_file()
     results.append({"steps": steps, "found": found})
 print("P2" + json.dumps(results))
@@ -179,14 +187,13 @@ import json, sys, logging, warnings
 warnings.filterwarnings("ignore"); logging.disable(logging.CRITICAL)
 from pathlib import Path
 from experimaestro import experiment, RunMode
-from xvschema.dep import OldT, OldC, NewT, NewC
+from xvschema.dep import OldT, OldC, NewT, NewC, submit
 root = Path(sys.argv[1]); cases = json.load(open(sys.argv[2])); p1 = json.load(open(sys.argv[3]))
 for i, (case, jobs) in enumerate(zip(cases, p1)):
     wd = root / f"w{i}"
     with experiment(wd, "dep2", run_mode=RunMode.DRY_RUN, port=-1) as xp:
         for j in jobs:
-            t = NewT(n=int(j), c=NewC(v=int(j)))
-            t.submit()
+            t = submit(j, old=False)
             jobs[j]["new"] = str(t.__xpm__.job.path.relative_to(wd))
     for j, k in case["link"].items():
         new, old = wd / jobs[j]["new"], wd / jobs[j]["old"]
@@ -249,7 +256,7 @@ warnings.filterwarnings("ignore"); logging.disable(logging.CRITICAL)
 from pathlib import Path
 from experimaestro import experiment, RunMode
 from experimaestro.tools.jobs import fix_deprecated
-from xvschema.dep import OldT, OldC, NewT, NewC
+from xvschema.dep import OldT, OldC, NewT, NewC, submit
 root = Path(sys.argv[1]); cases = json.load(open(sys.argv[2])); p1 = json.load(open(sys.argv[3]))
 out = []
 for i, (case, jobs) in enumerate(zip(cases, p1)):
@@ -284,8 +291,7 @@ for i, (case, jobs) in enumerate(zip(cases, p1)):
     try:
         with experiment(wd, "dep3", run_mode=RunMode.DRY_RUN, port=-1) as xp:
             for j in jobs:
-                t = NewT(n=int(j), c=NewC(v=int(j)))
-                t.submit()
+                t = submit(j, old=False)
                 found[j] = t.__xpm__.job.donepath.is_file()
     except Exception as e:
         r["err"] = r["err"] or ("resubmission: " + repr(e)[:300])
